@@ -14,7 +14,7 @@ CLAIMED = {
 CLAIMED["C01"] = ("DESIGN.md §5 C01",
     "CrossHair symbolic execution of the real command handlers/management task on a simulated event loop; client-view replay oracle; epoch induction from synchronised states",
     "Bounded symbolic execution of the real do_* handlers, management_task, expunge/store/fetch/append/copy/check_new_msgs_and_flags for two sessions: from an arbitrary synchronised state one or two actor operations, one observer command, then flush; \\Deleted subset, idling bit, sequence numbers, UID sets and delivery counts are symbolic and every path is decided by z3. Each session's stream is replayed against a client-view model (EXISTS never shrinks, EXPUNGE/FETCH positions exist, no EXPUNGE inside non-UID FETCH/STORE/SEARCH, accepted numbers denote the view's UID, view == server list after flush). A flush re-establishes a synchronised state, so histories of any number of epochs are covered inductively.",
-    "Trusted: CrossHair+z3, FakeMH (stdlib MH contract), NullDB, SimLoop with FIFO scheduling (interleavings are C10), concrete sparse keys/UIDs. Bound: n=3 (quick) / n<=4 (thorough), 2 sessions, epoch of <=2 actor operations + 1 observer command.")
+    "Trusted: CrossHair+z3, FakeMH (stdlib MH contract), NullDB, SimLoop with FIFO scheduling (interleavings are C10), concrete sparse keys/UIDs. Bound: n=3 (quick) / n in 2..4 (thorough), 2 sessions, observer menu incl. re-SELECT/re-EXAMINE of the selected mailbox, epoch of <=2 actor operations + 1 observer command.")
 CLAIMED["C06"] = ("DESIGN.md §5 C06",
     "CrossHair symbolic execution of BaseClientHandler.command + every do_* handler on a simulated event loop with a virtual clock (watchdog-only completion is an observable state)",
     "Every command kind (incl. UID forms) executed through the real command()/do_*/ready_and_okay/management_task with symbolic message numbers (0..n+1, s, s:*, *), mailbox target (existing, \\Noselect placeholder, child, missing) and session state; all paths decided by z3. Oracle: exactly one tagged OK/NO/BAD line, last, CRLF-terminated; loop status ok; virtual time consumed < 120 s watchdog; session answers a following NOOP unless BYE. IMAPClientProxy.run is driven with an unparsable command followed by NOOP.",
@@ -46,17 +46,17 @@ CLAIMED["C12"] = ("DESIGN.md §5 C12", "CrossHair symbolic execution of shutdown
     "An arbitrary valid mailbox state (sparse keys/UIDs, flag bits incl. a keyword, next_uid slack, subscription, \\Marked, stored-vs-actual mtime) is shut down by the real code and re-activated by a new server object on the same store; UIDVALIDITY, UIDNEXT, UID list, flags apart from \\Recent, subscription and the SELECT data must be identical.", "Trusted: CrossHair+z3, FakeMH, real asimap.db.Database with tokenised parameters on sqlite. n<=2 quick / n<=3 thorough; gap shapes listed in evidence.")
 
 
-CLAIMED["C07"] = ("DESIGN.md §5 C07", "CrossHair symbolic execution of every string-producing site with unconstrained symbolic characters (z3 decides the character classes); symbolic literal framing; independent RFC 3501 response recogniser on whole responses of the real handlers",
+CLAIMED["C07"] = ("DESIGN.md §5 C07", "CrossHair-driven execution of every string-producing site on strings over 12 representatives of the character classes the quoting code distinguishes (selector symbolic, enumerated by the decision tree); literal framing with symbolic partial offsets; independent RFC 3501 response recogniser on whole responses of the real handlers",
     "Every place that puts a value between double quotes (encode_header, encode_addrs, BODYSTRUCTURE parameters/disposition/languages/transfer-encoding/content-id, LIST/LSUB/STATUS names) runs with a symbolic string (|s|<=3, any code point < 256): the token must be a well-formed quoted string or literal that decodes back to the value. FetchAtt.body runs with symbolic bytes and partial. Whole FETCH/LIST/LSUB/STATUS/SELECT responses and error replies of the real handlers for a menu of hostile headers, MIME structures and mailbox names must be accepted by an independent response recogniser (CRLF-terminated responses, literal counts, balanced parentheses, no raw specials in quoted strings).", "Trusted: CrossHair+z3, the recogniser (asv/refmodel/response.py), a fake email.message object for the per-site runs. Bounds |s|<=3 (quick)/4 (thorough); code points >= 256 (stdlib Header.encode) and the bytes inside literals are outside.")
 CLAIMED["C09"] = ("DESIGN.md §5 C09", "CrossHair-driven execution of the real parser + handlers on a recording fake file tree for a grammar of hostile names (solver-enumerated selectors)",
     "For every command that takes a mailbox name (13 kinds; RENAME both positions; LIST reference and patterns) the name is built from component selectors ('..', '.', '', 'a', 'decoy', 'inbox'; optional leading '/'; atom, quoted, literal) and run through the real parser and handlers; every path handed to the store API must normalise under the mail root, a decoy neighbour root must be byte-identical afterwards and no response may reveal it.", "Trusted: CrossHair+z3, FakeMH/FakeTree joining names exactly like asimap.mh.MH (os.path.join). Names of up to 3 components; selectors are realised (enumeration by the decision tree).")
-CLAIMED["C10"] = ("DESIGN.md §5 C10", "CrossHair symbolic execution with the event-loop schedule as symbolic integers (first D choices among ready callbacks), real management task and handlers on a simulated loop; linearizability oracle against sequential runs of the same code",
+CLAIMED["C10"] = ("DESIGN.md §5 C10", "CrossHair symbolic execution with the event-loop schedule as symbolic integers (first D choices among ready callbacks), real management task and handlers on a simulated loop; linearizability oracle against sequential runs of the same code; would_conflict() against two executing commands compared with the disjunction of its pairwise decisions",
     "Pairs of commands from two sessions (EXPUNGE vs STORE/FETCH/SEARCH, opposite-direction COPY/MOVE, MOVE vs EXPUNGE, APPEND vs EXPUNGE, DELETE/RENAME with queued commands, CLOSE vs FETCH, COPY vs STORE) run concurrently; the first D scheduling decisions are symbolic, DB and folder calls are scheduling points. No deadlock, no watchdog-only answer, every handler returns, exactly one tagged reply each, and (outcomes, returned data, final folders and flags) equal those of one of the two sequential orders.", "Trusted: CrossHair+z3, SimLoop (time advances only when nothing is ready; FIFO after D decisions), FakeMH + real SQL on sqlite with one yield per async call. D=4 quick / 7 thorough; 2 sessions x 1 command.")
 CLAIMED["C14"] = ("DESIGN.md §5 C14", "CrossHair symbolic execution of parser desugaring + IMAPSearch evaluators + Mailbox.search with symbolic flag bits / sizes, compared with an independent evaluator",
     "Programs of 10 Boolean shapes (NOT, OR, juxtaposition, parenthesised lists to depth 2) over 16 flag leaves (incl. NEW/OLD/UN*) run through the real SEARCH pipeline on 3 messages whose flag bits are symbolic; every other key (sizes with symbolic operands, internal/sent dates, headers, body/text, UID and sequence sets) runs as a single leaf; UID SEARCH and SEARCH are both compared with the evaluator.", "Trusted: CrossHair+z3, stdlib email parsing of 3 fixed messages. Depth <= 2; dates/strings from menus.")
-CLAIMED["C16"] = ("DESIGN.md §5 C16", "CrossHair-driven execution of the real FETCH path on a menu of message texts with symbolic partial ranges; equations between data items",
+CLAIMED["C16"] = ("DESIGN.md §5 C16", "CrossHair-driven execution of the real FETCH/APPEND/COPY/EXPUNGE path on a menu of message texts with symbolic partial ranges; equations between data items, APPEND fidelity, sizes after MH key reuse",
     "For 9 message shapes (plain, 8-bit, multipart, nested, message/rfc822, empty body, missing final newline, LF endings, dot lines) the real handlers must satisfy RFC822.SIZE == octets of BODY[], HEADER ++ TEXT == BODY[], RFC822* == BODY forms, repeated fetch identical, CRLF line ends, BODY[]<o.n> == that slice for symbolic o,n; COPY returns identical bytes; POP3 size == RFC822.SIZE; RFC822* desugar to the same FetchAtt as their BODY forms.", "Trusted: CrossHair+z3, the stdlib email package on concrete texts. Arbitrary messages are outside this family's reach (stated in evidence): the menu is the bound.")
-CLAIMED["C17"] = ("DESIGN.md §5 C17", "direct z3 regex-equivalence of the regex produced by _mbox_pattern_to_re against the wildcard language (unbounded names) + CrossHair-driven namespace histories against a reference model",
+CLAIMED["C17"] = ("DESIGN.md §5 C17", "direct z3 regex-equivalence of the regex produced by _mbox_pattern_to_re against the wildcard language (unbounded names) + CrossHair-driven namespace histories and one-step RENAMEs from every subset of a 7-name universe against a reference model",
     "All LIST patterns up to length 3 (4 thorough) over {a,b,/,%,*,.,+,SP,(} with two references: the regex asimap builds is translated to z3 and proved equivalent to the wildcard language for mailbox names of any length. Histories of 2 (3) namespace commands from a menu of 20 (CREATE/DELETE/RENAME/SUBSCRIBE incl. INBOX, digits, missing names, optional restart) run through the real handlers and 10 LIST/LSUB probes are compared with a reference namespace model (names, \\Noselect, \\HasChildren, subscription, message counts, directories).", "Trusted: z3 regex theory + re->z3 translation (replayed through re), CrossHair, FakeMH tree with component-wise symlink resolution, real SQL incl. REGEXP. Ambiguous outcomes (deleting a placeholder, RENAME under a missing parent) accept both.")
 CLAIMED["C19"] = ("DESIGN.md §5 C19", "direct z3 queries on the literal-detection regexes + CrossHair-driven execution of the real read loop / framing / relay on contract-level fake streams against a reference tokenizer",
     "The three RE_LITERAL_STRING_START copies are compared by z3 with RFC 7888 for lines of any length. IMAPClient.start runs on streams built from a command of 6 shapes (plain, (non-)synchronising literal, literal followed by text, two literals, long line) with announced sizes 0..L+2 around a patched MAX_INPUT_SIZE, followed by two more commands: the messages handed to the user process, the continuation requests and the BADs must equal the reference tokenizer's. message()->IMAPClientProxy.run round-trips arbitrary payloads; msgs_to_client relays CRLF-free runs longer than the reader limit unmodified.", "Trusted: z3, CrossHair, FakeReader/FakeWriter implementing the documented asyncio stream contract (segmentation discharged by the contract). L=24 quick / 24,40 thorough.")
